@@ -280,6 +280,11 @@ class MinFlowDecompCycles(walkmodel.AbstractWalkModelDiGraph):
     def _get_lowerbound_with_min_gen_set(self) -> int:
 
         min_gen_set_start_time = time.perf_counter()
+        # The total below is the excess flow (out-flow minus in-flow) over all nodes. This is the sum of the
+        # walk weights only if every edge carries its flow value: not in the node-expanded graph (whose 
+        # connecting edges have no flow value), and not if some flow-carrying edge is ignored.
+        if self.flow_attr_origin == "node" or any(self.flow_attr in self.G.edges[e] for e in self.edges_to_ignore if e in self.G.edges):
+            return None
         all_weights = list(set({self.G.edges[e][self.flow_attr] for e in self.G.edges() if self.flow_attr in self.G.edges[e]}))
         # Get the source_flow as the sum of the out_flow - in_flow, for all nodes
         source_flow = self._get_source_flow()
